@@ -428,7 +428,7 @@ def split_alt(block):
     """model block -> (trace of the unchanged-tree variant, [traces of the variants with proposed fixes])"""
     tree = [l for l in block if not re.match(r"alt\d ", l)]
     alts = []
-    for k in "12345":
+    for k in "123456789":
         a = [l[5:] for l in block if l.startswith("alt%s " % k)]
         if a:
             alts.append([block[0]] + a)
